@@ -666,6 +666,36 @@ def check_prefix(ctx, out, rule="C15.prefix"):
     out.inst(rule, n, 3, ["key := target_file.strip_prefix(\"b/\").unwrap_or(target_file)"])
 
 
+def check_accept(ctx, out):
+    """`Any ordinary two-way diff that git emits is accepted, whatever the files contain`: the census of
+    panic-capable sites (shared with C04), over the files of the functions that turn the diff text into line changes."""
+    from rules import C04
+    entries = [b for b in ctx.reachable_bodies()
+               if re.search(r"HashMap<std::path::PathBuf, std::vec::Vec<blockwatch::diff_parser::LineChange>", b.local_ty(0) or "")
+               and not b.id.startswith("bwbin::")]
+    if not entries:
+        out.viol("C01.census", "C01.census|anchor-missing", "-", "could not find the function that returns the line changes per file")
+        out.inst("C01.census", 0, 1)
+        return
+    files = set()
+    for e in entries:
+        for b in ctx.region(e):
+            if b.id.startswith("blockwatch::") and not b.is_derive():
+                files.add(b.file)
+    within = {b.id for b in ctx.reachable_bodies() if b.file in files}
+    # ... the sites whose failing value is a property of the *text* (a `str` cut at a byte offset that is not a
+    # character boundary): what "whatever the files contain" adds to C04's statement. Index arithmetic on tables
+    # stays C04's.
+    n_files = len(files)
+    shared.run_renamed(out, lambda o: C04.check_census(ctx, o, within=within, floor=0,
+                                                       kinds=lambda s: s["kind"] == "index-str" or (s["kind"].startswith("std:") and "str" in (s.get("recv_ty") or "") + s["detail"])),
+                       "C04", "C01")
+    if "C01.census" in out.rules and n_files:
+        out.rules["C01.census"]["found"] = out.rules["C01.census"].get("found", 0) + n_files
+        out.rules["C01.census"]["floor"] = 1
+        out.rules["C01.census"]["note"] = "%d file(s) of the diff-to-line-changes region examined; %s" % (n_files, out.rules["C01.census"].get("note", ""))
+
+
 def run(ctx, out, tier):
     check_coord(ctx, out)
     check_queue(ctx, out)
@@ -715,6 +745,7 @@ def run(ctx, out, tier):
     _span(ctx, out, "C01.span")
     check_output_writeonly(ctx, out)
     check_linekind(ctx, out)
+    check_accept(ctx, out)
     return meta()
 
 
